@@ -23,6 +23,7 @@ import (
 
 var (
 	verifDir = "/verif"
+	outDir   = "/verif" // replays/ and evidence/ live here; VERIF_OUTDIR redirects them (runs against other trees)
 	repoDir  = "/repo"
 	goBin    = "go1.26.8"
 )
@@ -57,8 +58,12 @@ func setup() *env {
 	if v := os.Getenv("VERIF_DIR"); v != "" {
 		verifDir = v
 	}
+	outDir = verifDir
 	if v := os.Getenv("VERIF_REPO"); v != "" {
 		repoDir = v
+	}
+	if v := os.Getenv("VERIF_OUTDIR"); v != "" {
+		outDir = v
 	}
 	base := os.Getenv("VERIF_SCRATCH")
 	if base == "" {
